@@ -3,6 +3,7 @@ package main
 // E4 (reachability avoiding edges / instructions), E6 (path counting), call-graph helpers (E7).
 
 import (
+	"go/token"
 	"go/types"
 	"sort"
 	"strings"
@@ -230,6 +231,40 @@ func staticTarget(c *ssa.CallCommon) *ssa.Function {
 	if mc, ok := c.Value.(*ssa.MakeClosure); ok {
 		return mc.Fn.(*ssa.Function)
 	}
+	// a captured function value: the closure bound to the free variable where the enclosing closure is made
+	v := c.Value
+	for i := 0; i < 4; i++ {
+		switch x := v.(type) {
+		case *ssa.MakeClosure:
+			return x.Fn.(*ssa.Function)
+		case *ssa.FreeVar:
+			b := freeBinding(x)
+			if b == nil {
+				return nil
+			}
+			v = b
+		case *ssa.UnOp:
+			// a variable captured by reference: load of the cell, which is assigned once
+			if x.Op != token.MUL {
+				return nil
+			}
+			cell := x.X
+			if fv, ok := cell.(*ssa.FreeVar); ok {
+				cell = freeBinding(fv)
+			}
+			al, ok := cell.(*ssa.Alloc)
+			if !ok {
+				return nil
+			}
+			val, ok := singleStore(al)
+			if !ok {
+				return nil
+			}
+			v = val
+		default:
+			return nil
+		}
+	}
 	return nil
 }
 
@@ -267,6 +302,19 @@ func (g *CallGraph) AddView(v *ssa.Function) {
 		return
 	}
 	g.addFunc(v, false)
+	var addAnon func(f *ssa.Function)
+	addAnon = func(f *ssa.Function) {
+		for _, an := range f.AnonFuncs {
+			if _, ok := g.Callees[an]; !ok {
+				g.addFunc(an, false)
+				if _, ok := g.Callees[an]; !ok {
+					g.Callees[an] = nil
+				}
+				addAnon(an)
+			}
+		}
+	}
+	addAnon(v)
 	o := origFn(v)
 	g.Callees[v] = append(g.Callees[v], g.Callees[o]...)
 	g.GoTargs[v] = append(g.GoTargs[v], g.GoTargs[o]...)
